@@ -59,6 +59,9 @@ def gen_nz(rnd):
             k = rnd.randint(0, M); q = k / M
             pts.add(rnd.choice([q, math.nextafter(q, 2.0), math.nextafter(q, -1.0), round(q, 2), round(q, 3)]))
         samples = sorted(x for x in pts if 0.0 <= x <= 1.0) or [1.0]
+    if M >= 1 and isinstance(samples, list) and rnd.random() < 0.3:
+        x = tricky_fraction(rnd, M)            # where (i+1)/M >= p, (i+1) >= p*M and (i+1)*(1/M) >= p disagree in doubles
+        if x is not None: samples = sorted(set(samples) | {x})
     return dict(kind=kind, n=n, edges=edges, samples=samples, seed=rnd.random(), shuffled_nodes=rnd.random() < 0.4, form=rnd.choice(['asis', 'asis', 'shuffled', 'dups', 'tuple', 'array', 'iter', 'ints']),
                 how=rnd.choice(['graph', 'graph', 'fixed', 'limit1', 'limit2']))
 
@@ -247,11 +250,25 @@ def near_fraction(rnd, M, top=1.0):
     return max(0.0, rnd.choice([q, math.nextafter(q, -1.0), math.nextafter(q, 9.0), math.nextafter(math.nextafter(q, -1.0), -1.0), round(q, 2), round(q, 3), q - 1e-10, q + 1e-10, q - 1e-12]))
 
 
+def tricky_fraction(rnd, M, top=1.0):
+    """a fraction x at which algebraically equal ways of computing floor(x*M) / 'k/M <= x' disagree in double arithmetic (if there is one
+    among the k/M and the short decimals): where a rearranged formula shows"""
+    cands = [k / M for k in range(0, int(M * top) + 1)] + [j / 100 for j in range(0, int(100 * top) + 1)] + [j / 1000 for j in range(0, int(1000 * top) + 1, 7)]
+    rnd.shuffle(cands)
+    found = []
+    for x in cands[:600]:
+        forms = {int(M * x), int(M - M * (1.0 - x)) if top <= 1.0 else int(M * x), sum(1 for i in range(int(M * top) + 1) if (i + 1) / M <= x),
+                 sum(1 for i in range(int(M * top) + 1) if (i + 1) <= x * M), sum(1 for i in range(int(M * top) + 1) if (i + 1) * (1.0 / M) <= x)}
+        if len(forms) > 1: found.append(x)
+    return rnd.choice(found) if found else None
+
+
 def gen_perc(rnd):
     n, edges = rand_graph(rnd, 1, 9)
     M = len(edges)
     T = rnd.choice([0.0, 1.0, 0.5, 0.25, 0.75, 0.125, rnd.random(), (rnd.randrange(M + 1) / M) if M else 0.5])
     if M and rnd.random() < 0.35: T = min(1.0, near_fraction(rnd, M))
+    if M and rnd.random() < 0.4: T = tricky_fraction(rnd, M) or T
     spec = dict(kind='perc', n=n, edges=edges, T=T, seed=rnd.random(), shuffled_nodes=rnd.random() < 0.4, follow=rnd.random() < 0.5, limit1=rnd.random() < 0.3,
                 labels=rnd.choice(['int', 'int', 'str', 'mixed']))
     if rnd.random() < 0.4 and M:
@@ -347,6 +364,7 @@ def gen_shuf(rnd):
     n, edges = rand_graph(rnd, 4, 10, dens=rnd.choice([0.3, 0.5, 0.7]))
     f = rnd.choice([0.0, 0.1, 0.25, 0.5, 1.0, 1.5, rnd.random()])
     if edges and rnd.random() < 0.35: f = near_fraction(rnd, len(edges), top=1.5)
+    if edges and rnd.random() < 0.4: f = tricky_fraction(rnd, len(edges), top=1.5) or f
     return dict(kind='shuf', n=n, edges=edges, f=f, seed=rnd.random(), shuffled_nodes=rnd.random() < 0.4, sticky=rnd.choice([0.0, 0.0, 0.8, 0.9]), limit1=rnd.random() < 0.3,
                 labels=rnd.choice(['int', 'int', 'big', 'str']))
 
@@ -425,6 +443,7 @@ def run_shuf(spec):
             v = next(v for v in range(n) if degs[v] != proto.degree(lab(v)))
             viol.append(f"f={f}: node {v} had degree {proto.degree(lab(v))}, now {degs[v]}")
         elif any(a == b for (a, b) in wg.edges()): viol.append(f"f={f}: self-loop {[e for e in wg.edges() if e[0] == e[1]][0]} introduced")
+        elif len(swaps) != imax: viol.append(f"f={f}, M={M}: {len(swaps)} swaps were made, floor(f*M) = {imax}")
         elif len(set(orig) - set(es)) > 2 * imax: viol.append(f"f={f}, M={M}: {len(set(orig) - set(es))} original edges are gone, at most 2*floor(f*M) = {2 * imax} allowed")
         elif imax == 0 and es != orig: viol.append(f"f={f} (floor(f*M) = 0) but the network changed: {sorted(set(orig) ^ set(es))}")
         elif sorted(tuple(sorted((inv[a], inv[b]))) for (a, b) in g.edges()) != orig: viol.append("the prototype network was modified")
